@@ -95,6 +95,7 @@ class Interp:
         self.call_depth = 0
         self.notes = []
         self.modified = set()      # heap keys written on this path
+        self.rely_modified = set() # heap keys changed by the environment (rely) on this path
         self.spec_env_extra = {}
         self.hyp = []
         self.ext_returns = []
@@ -1065,6 +1066,10 @@ class Interp:
             fc = self.cset.lookup_method(base.sort, attr)
             if fc is not None:
                 return VFn("bound", obj=base, name=attr, fc=fc)
+            if base.sort in ("Fn", "Any"):
+                # attribute of an unknown object (e.g. callback.__self__.name): some unknown value
+                f = z3.Function("attr_" + attr, usort(base.sort), usort("Any"))
+                return VOpaque("Any", f(base.t))
         raise Unsupported("attribute %s of %r" % (attr, base))
 
     def e_Subscript(self, n):
@@ -1384,7 +1389,14 @@ class Interp:
         self.trace.append(ev)
         h = self.cset.helpers.get("on_opaque_call")
         if h is not None:
-            r = h(self, fn, args, kwargs)
+            # what the environment (the callback) changes is not charged to the function's own frame
+            saved_mod = self.modified
+            self.modified = set()
+            try:
+                r = h(self, fn, args, kwargs)
+            finally:
+                self.rely_modified |= self.modified
+                self.modified = saved_mod
             if r is not None:
                 ev.ret = r
                 return r
@@ -1553,7 +1565,8 @@ class Interp:
             raise SpecError("call of non-pure %s in a clause" % fc.key)
         th = getattr(self.cset, "trace_helpers", None)
         if th and fc.emits is None:
-            used = sorted({h for h in th for _, t in fc.ensures if isinstance(t, str) and (h + "(") in t})
+            used = sorted({h for h in th for _, t in (fc.call_ensures if fc.call_ensures is not None else fc.ensures)
+                           if isinstance(t, str) and (h + "(") in t})
             if used:
                 raise SpecError("%s is called through its contract, whose postcondition uses trace helper(s) %s, "
                                 "but the contract has no `emits`" % (fc.key, used))
@@ -1598,7 +1611,7 @@ class Interp:
             self.snapshots.append(snap)
             trace_len = len(self.trace)
             try:
-                for loc in fc.modifies:
+                for loc in (fc.call_modifies if fc.call_modifies is not None else fc.modifies):
                     self.havoc_loc(loc)
                 # 3. outcomes: normal or one of the declared exceptions
                 outcomes = ["return"] + list(fc.raises.keys())
@@ -1620,7 +1633,7 @@ class Interp:
                             fc.emits(self, env, res)
                         import os as _os
                         dbg = _os.environ.get("PYVC_TRACE_ASSUME")
-                        for label, clause in fc.ensures:
+                        for label, clause in (fc.call_ensures if fc.call_ensures is not None else fc.ensures):
                             self.ctx.assume(self.spec_bool(clause))
                             if dbg and not self.ctx._feasible(z3.BoolVal(True)):
                                 print("INFEASIBLE after assuming %s:%s at line %s" % (fc.key, label,
@@ -1658,6 +1671,36 @@ class Interp:
 
     def havoc_loc(self, loc):
         """loc: 'self.a.b' / 'ghost.x' / 'self.config["k"]' ; trailing '.*' havocs all materialised fields"""
+        if loc.endswith(".**"):
+            # every abstract container reachable from the value gets fresh contents (concrete structure is kept)
+            self.spec_depth += 1
+            try:
+                v0 = self.eval(ast.parse(loc[:-3], mode="eval").body)
+            finally:
+                self.spec_depth -= 1
+            stack, seen = [v0], set()
+            while stack:
+                v = stack.pop()
+                for _, x in (v.alts if isinstance(v, VUnion) else ((None, v),)):
+                    if x.tag in ("list", "dict", "set") and x.ref not in seen:
+                        seen.add(x.ref)
+                        c = self.heap.data.get((x.ref, "$"))
+                        if isinstance(c, LSeq):
+                            self.ctx.fresh_n += 1
+                            self.heap.data[(x.ref, "$")] = LSeq(z3.Const("%s!%d" % (x.ref.name, self.ctx.fresh_n),
+                                                                         c.term.sort()), c.elem)
+                            self.modified.add((x.ref, "$"))
+                        elif isinstance(c, DMap):
+                            self.ctx.fresh_n += 1
+                            n_ = "%s!%d" % (x.ref.name, self.ctx.fresh_n)
+                            self.heap.data[(x.ref, "$")] = DMap(z3.Const(n_, c.arr.sort()),
+                                                                z3.Const(n_ + "?dom", c.dom.sort()), c.kshape, c.vshape)
+                            self.modified.add((x.ref, "$"))
+                        elif isinstance(c, (LConc, SConc)):
+                            stack.extend(c.items)
+                        elif isinstance(c, DConc):
+                            stack.extend(vv for _, vv in c.entries)
+            return
         star = loc.endswith(".*")
         if star:
             loc = loc[:-2]
